@@ -415,7 +415,22 @@ func tzFile(dir string, offset int) string {
 	return p
 }
 
+// runGoit runs one invocation; a failure to start the process at all (fork/exec errors under load)
+// is a harness problem, not an outcome of goit: it is retried.
 func runGoit(goit, dir, home string, tzOffset int, args []string, extraEnv ...string) RunRes {
+	var r RunRes
+	for attempt := 0; attempt < 5; attempt++ {
+		var started bool
+		r, started = runGoitOnce(goit, dir, home, tzOffset, args, extraEnv...)
+		if started {
+			return r
+		}
+		time.Sleep(time.Duration(50*(attempt+1)) * time.Millisecond)
+	}
+	return r
+}
+
+func runGoitOnce(goit, dir, home string, tzOffset int, args []string, extraEnv ...string) (RunRes, bool) {
 	ctx, cancel := context.WithTimeout(context.Background(), 10*time.Second)
 	defer cancel()
 	cmd := exec.CommandContext(ctx, goit, args...)
@@ -431,11 +446,11 @@ func runGoit(goit, dir, home string, tzOffset int, args []string, extraEnv ...st
 	r := RunRes{Stdout: stripANSI(so.String()), Stderr: se.String()}
 	if ctx.Err() == context.DeadlineExceeded {
 		r.Class = "hang"
-		return r
+		return r, true
 	}
 	if err == nil {
 		r.Class = "ok"
-		return r
+		return r, true
 	}
 	if ee, ok := err.(*exec.ExitError); ok {
 		r.Code = ee.ExitCode()
@@ -444,8 +459,9 @@ func runGoit(goit, dir, home string, tzOffset int, args []string, extraEnv ...st
 		} else {
 			r.Class = "error"
 		}
-		return r
+		return r, true
 	}
 	r.Class = "crash"
-	return r
+	r.Stderr = "harness: could not run goit: " + err.Error()
+	return r, false
 }
